@@ -186,10 +186,14 @@ def addressing(facts):
                 if len(rets) == 1 and len(cell_loops) == 1:
                     r = strip_all(rets[0]["e"])
                     inner = strip_all(r.get("e") or (r.get("args") or [{}])[0]) if r.get("k") in ("Un", "OpCall") and r.get("op") == "*" else {}
+                    V = V2 = None
                     if inner.get("k") == "Call" and inner.get("cname") == "min_element" and len(inner.get("args", [])) == 2:
                         b0, e0 = strip_all(inner["args"][0]), strip_all(inner["args"][1])
                         V = _ref_d(b0.get("obj") or {}) if b0.get("k") == "Call" and b0.get("cname") == "begin" else None
                         V2 = _ref_d(e0.get("obj") or {}) if e0.get("k") == "Call" and e0.get("cname") == "end" else None
+                    elif inner.get("k") == "Ref":
+                        V = V2 = _argmin_of(fn, inner.get("d"))     # a hand-written std::min_element
+                    if V is not None:
                         E = (cell_loops[0].get("var") or {}).get("d")
                         body = stmts_of(cell_loops[0]["b"])
                         if V is not None and V == V2 and len(body) == 1 and body[0].get("k") == "Expr":
@@ -206,6 +210,73 @@ def addressing(facts):
             ok = rets == ["(get_estimate(item,size)+(get_relative_error()*get_total_weight()))"]
             out.append(ob("cm.bounds", "count_min_sketch::get_upper_bound(void*):formula", fn["pat"], "discharged" if ok else "violated", "upper bound = estimate + relative_error * total_weight" if ok else "upper bound is %s" % rets, fn["qname"]))
     return out
+
+
+def _unwrap(x):
+    x = strip_all(x or {})
+    while isinstance(x, dict) and x.get("k") == "Construct" and len(x.get("args", [])) == 1:
+        x = strip_all(x["args"][0])
+    return x if isinstance(x, dict) else {}
+
+
+def _argmin_of(fn, d):
+    """the container V when local iterator `d` is V.begin() updated only by `if (*it < *d) d = it` inside a loop of `it` over the
+    whole of V (what std::min_element(V.begin(), V.end()) does), else None"""
+    from astu import reach_tagged
+    init, writes = [], []
+
+    def v(n, ps):
+        k = n.get("k")
+        if k == "Decl":
+            for x in n.get("vars", []):
+                if x.get("d") == d:
+                    init.append(_unwrap(x.get("init")))
+        elif k == "Assign" and _ref_d(n.get("l")) == d:
+            writes.append((n, ps, n.get("op"), n.get("r")))
+        elif k == "OpCall" and n.get("op") in ("=", "+=", "-=", "++", "--") and n.get("args") and _ref_d(n["args"][0]) == d:
+            writes.append((n, ps, n["op"], n["args"][1] if len(n["args"]) > 1 else None))
+        elif k == "Un" and n.get("op") in ("++", "--", "&") and _ref_d(n.get("e")) == d:
+            writes.append((n, ps, n["op"], None))
+    walkp(fn["body"], v)
+    if len(init) != 1 or len(writes) != 1 or init[0].get("k") != "Call" or init[0].get("cname") != "begin":
+        return None
+    V = _ref_d(init[0].get("obj") or {})
+    n, ps, op, rhs = writes[0]
+    it = _ref_d(_unwrap(rhs)) if rhs is not None else None
+    loops = [p for p in ps if p.get("k") in ("For", "While", "Do", "RangeFor")]
+    if V is None or op != "=" or it is None or len(loops) != 1 or loops[0].get("k") != "For":
+        return None
+    L = loops[0]
+    # it = V.begin(); it != V.end(); ++it
+    inits = []
+    walk(L.get("init") or {}, lambda x: inits.extend(v2 for v2 in x.get("vars", []) if v2.get("d") == it) if x.get("k") == "Decl" else None)
+    if len(inits) != 1:
+        return None
+    i0 = _unwrap(inits[0].get("init"))
+    if i0.get("k") != "Call" or i0.get("cname") != "begin" or _ref_d(i0.get("obj") or {}) != V:
+        return None
+    c = strip_all(L.get("c") or {})
+    ends = []
+    walk(c, lambda x: ends.append(x) if x.get("k") == "Call" and x.get("cname") == "end" and _ref_d(x.get("obj") or {}) == V else None)
+    if c.get("op") != "!=" or len(ends) != 1 or "++" not in txt(L.get("inc") or {}):
+        return None
+    steps = []
+    walk(L.get("b") or {}, lambda x: steps.append(x) if x.get("k") in ("OpCall", "Un", "Assign") and x.get("op") in ("++", "--", "+=", "-=", "=") and _ref_d((x.get("args") or [x.get("e") or x.get("l") or {}])[0]) == it else None)
+    if steps:
+        return None
+
+    def deref(x):
+        x = strip_all(x)
+        if x.get("k") in ("Un", "OpCall") and x.get("op") == "*":
+            return _ref_d(x.get("e") or (x.get("args") or [{}])[0])
+        return None
+    lits = [l for l, origin in reach_tagged(L.get("b"), n) if origin != "loop"]
+    if len(lits) != 1:
+        return None
+    gp = gt_pair(lits[0])
+    if not gp or deref(gp[0]) != d or deref(gp[1]) != it:
+        return None
+    return V
 
 
 def overload_siblings(facts):
